@@ -887,11 +887,14 @@ func (fr *Frame) appendOp(ci ssa.CallInstruction, c *ssa.CallCommon) *Term {
 	tArr := Select(h, A("s_base", t))
 	q := Leaf(fmt.Sprintf("q_app_%d", w.fresh()))
 	qd := A("((" + q.Op + " Int))")
-	enc.assume(A("forall", qd, Implies(And(Le(IntLit(0), q), Lt(q, Add(off, ln))), Eq(Select(narr, q), Select(oldArr, q)))), "append: old elements kept")
-	enc.assume(A("forall", qd, Implies(And(Le(IntLit(0), q), Lt(q, tl)),
-		Eq(Select(narr, Sidx(off, Add(ln, q))), Select(tArr, Sidx(A("s_off", t), q))))), "append: new elements copied")
+	pat := func(body *Term) *Term { return A("!", body, Leaf(":pattern"), A("", Select(narr, q))) }
+	start := Sidx(off, ln) // absolute index of the first appended element
+	enc.assume(Eq(start, Add(off, ln)), "")
+	enc.assume(A("forall", qd, pat(Implies(And(Le(IntLit(0), q), Lt(q, start)), Eq(Select(narr, q), Select(oldArr, q))))), "append: old elements kept")
+	enc.assume(A("forall", qd, pat(Implies(And(Le(start, q), Lt(q, Add(start, tl))),
+		Eq(Select(narr, q), Select(tArr, Sidx(A("s_off", t), Sub(q, start))))))), "append: new elements copied")
 	// elements beyond the new length keep their old value when appending in place
-	enc.assume(A("forall", qd, Implies(And(fits, Le(Add(off, Add(ln, tl)), q)), Eq(Select(narr, q), Select(oldArr, q)))), "append: rest untouched in place")
+	enc.assume(A("forall", qd, pat(Implies(And(fits, Le(Add(start, tl), q)), Eq(Select(narr, q), Select(oldArr, q))))), "append: rest untouched in place")
 	st.Set(hname, enc.define("app_heap", arraySort("Int", arrS), Ite(Eq(tl, IntLit(0)), h, Store(h, nbase, narr))))
 	return enc.define("app", "Slice", Ite(Eq(tl, IntLit(0)), s, A("mk_slice", nbase, off, Add(ln, tl), Ite(fits, cp, ncap))))
 }
@@ -920,8 +923,9 @@ func (fr *Frame) copyOp(ci ssa.CallInstruction, c *ssa.CallCommon) *Term {
 	q := Leaf(fmt.Sprintf("q_copy_%d", w.fresh()))
 	qd := A("((" + q.Op + " Int))")
 	dOff, sOff := A("s_off", d), A("s_off", s)
-	enc.assume(A("forall", qd, Implies(And(Le(IntLit(0), q), Lt(q, n)), Eq(Select(narr, Sidx(dOff, q)), Select(sArr, Sidx(sOff, q))))), "copy: elements copied")
-	enc.assume(A("forall", qd, Implies(Or(Lt(q, dOff), Le(Add(dOff, n), q)), Eq(Select(narr, q), Select(dArr, q)))), "copy: rest untouched")
+	pat := func(body *Term) *Term { return A("!", body, Leaf(":pattern"), A("", Select(narr, q))) }
+	enc.assume(A("forall", qd, pat(Implies(And(Le(dOff, q), Lt(q, Add(dOff, n))), Eq(Select(narr, q), Select(sArr, Sidx(sOff, Sub(q, dOff))))))), "copy: elements copied")
+	enc.assume(A("forall", qd, pat(Implies(Or(Lt(q, dOff), Le(Add(dOff, n), q)), Eq(Select(narr, q), Select(dArr, q))))), "copy: rest untouched")
 	st.Set(hname, enc.define("copy_heap", arraySort("Int", arrS), Ite(Eq(n, IntLit(0)), h, Store(h, A("s_base", d), narr))))
 	return n
 }
